@@ -1,5 +1,5 @@
-(* Proofs/RestrictReport.v -- how an undefined name is reported (C09): scope_report agrees with check_scope on WHETHER a
-   formula is rejected and on the class of the error, except when formatting the "did you mean" suggestion fails. *)
+(* Proofs/RestrictReport.v -- how an undefined name is reported (C09): scope_report, the list-level rendering of
+   MathExpression.check_scope's messages, is the scope check itself -- same formulas rejected, same error class. *)
 From Coq Require Import ZArith QArith List Bool Lia.
 From Verif.Model Require Import Result Lexer Parser Eval RestrictBase Restrict.
 From Verif.Proofs Require Import Restrict.
@@ -36,58 +36,14 @@ Proof.
   reflexivity.
 Qed.
 
-(* the report rejects exactly the formulas the scope check rejects, with the same error class or the generic error *)
+(* the report is the scope check: same formulas rejected, same class -- always the undefined-name error *)
 Theorem scope_report_spec : forall v f s t,
-  (check_scope (name_env v f s) t = None <-> scope_report v f s t = None)
-  /\ (forall e, check_scope (name_env v f s) t = Some e ->
-        scope_report v f s t = Some (GEvalError e) \/ scope_report v f s t = Some GGenericError).
+  scope_report v f s t = option_map GEvalError (check_scope (name_env v f s) t).
 Proof.
   intros v f s t. rewrite check_scope_name_env. unfold scope_report. cbv zeta.
   rewrite (truthy_filter_neg (fun n => mem n v)), (truthy_filter_neg (fun n => mem n f)),
           (truthy_filter_neg (fun n => mem n s)).
-  destruct (negb (forallb (fun n => mem n v) (vars_of t))).
-  { split; [split; discriminate|]. intros e H; inversion H; subst. destruct (format_crashes _ v); auto. }
-  destruct (negb (forallb (fun n => mem n f) (funcs_of t))).
-  { split; [split; discriminate|]. intros e H; inversion H; subst. destruct (format_crashes _ f); auto. }
-  destruct (negb (forallb (fun n => mem n s) (suffixes_of t))).
-  { split; [split; discriminate|]. intros e H; inversion H; subst. auto. }
-  split; [split; reflexivity | discriminate].
-Qed.
-
-Lemma format_crashes_spec : forall bad defined,
-  format_crashes bad defined = true <->
-  exists d b, In d defined /\ has_brace d = true /\ In b bad /\ lower d = lower b.
-Proof.
-  intros bad defined. unfold format_crashes. rewrite existsb_exists. split.
-  - intros [d [Hd H]]. apply andb_true_iff in H. destruct H as [Hb H]. apply existsb_exists in H.
-    destruct H as [b [Hin He]]. apply str_eqb_eq in He. exists d, b. auto.
-  - intros [d [b [Hd [Hb [Hin He]]]]]. exists d. split; [exact Hd|]. rewrite Hb. simpl. apply existsb_exists.
-    exists b. split; [exact Hin | apply str_eqb_eq; exact He].
-Qed.
-
-(* the generic error needs a defined name WITH A BRACE that differs from an undefined one only by case *)
-Theorem generic_error_needs_brace_variant : forall v f s t,
-  scope_report v f s t = Some GGenericError ->
-  exists d b, (In d v /\ In b (vars_of t) /\ ~ In b v \/ In d f /\ In b (funcs_of t) /\ ~ In b f)
-              /\ has_brace d = true /\ lower d = lower b.
-Proof.
-  intros v f s t. unfold scope_report. cbv zeta.
-  destruct (truthy (filter (fun x => negb (mem x v)) (vars_of t))).
-  { destruct (format_crashes _ v) eqn:Hc; [|discriminate]. intros _.
-    apply format_crashes_spec in Hc. destruct Hc as [d [b [Hd [Hb [Hin He]]]]].
-    apply filter_In in Hin. destruct Hin as [Hin Hn]. apply negb_true_iff, mem_false in Hn.
-    exists d, b. split; [left; auto | auto]. }
-  destruct (truthy (filter (fun x => negb (mem x f)) (funcs_of t))).
-  { destruct (format_crashes _ f) eqn:Hc; [|discriminate]. intros _.
-    apply format_crashes_spec in Hc. destruct Hc as [d [b [Hd [Hb [Hin He]]]]].
-    apply filter_In in Hin. destruct Hin as [Hin Hn]. apply negb_true_iff, mem_false in Hn.
-    exists d, b. split; [right; auto | auto]. }
-  destruct (truthy _); discriminate.
-Qed.
-
-Lemma no_brace_no_generic : forall v f s t,
-  (forall d, In d v \/ In d f -> has_brace d = false) -> scope_report v f s t <> Some GGenericError.
-Proof.
-  intros v f s t H Hg. apply generic_error_needs_brace_variant in Hg.
-  destruct Hg as [d [b [[[Hd _]|[Hd _]] [Hb _]]]]; rewrite (H d) in Hb; auto; discriminate.
+  destruct (negb (forallb (fun n => mem n v) (vars_of t))); [reflexivity|].
+  destruct (negb (forallb (fun n => mem n f) (funcs_of t))); [reflexivity|].
+  destruct (negb (forallb (fun n => mem n s) (suffixes_of t))); reflexivity.
 Qed.
